@@ -24,6 +24,27 @@ theorem newVal_of_not_stores (m val : Nat) (o : Op) (h : o.stores m val = false)
     | setk k => simp [Op.stores, SwapF.apply] at h; simp [Op.newVal, h, SwapF.apply]
     | clear => simp [Op.stores, SwapF.apply] at h; simp [Op.newVal, h, SwapF.apply]
 
+theorem inc_newVal (m val : Nat) (hm : m ≠ 1) : (Op.swap .inc).newVal m val = val + 1 := by
+  have hne : compare m val (val + 1) = false := by
+    unfold compare
+    have h1 : (val == val + 1) = false := by simp
+    rw [h1]
+    by_cases hm0 : m = 0
+    · simp [hm0]
+    · have hpos : 0 < m := Nat.pos_of_ne_zero hm0
+      have hlt := Nat.mod_lt val hpos
+      have : val % m ≠ (val + 1) % m := by
+        intro h
+        rw [Nat.add_mod] at h
+        by_cases hlast : val % m + 1 < m
+        · rw [Nat.mod_eq_of_lt (by omega : 1 < m), Nat.mod_eq_of_lt hlast] at h; omega
+        · have hm2 : 1 < m := by omega
+          rw [Nat.mod_eq_of_lt hm2] at h
+          have : val % m + 1 = m := by omega
+          rw [this, Nat.mod_self] at h; omega
+      simp [hm0, this]
+  simp [Op.newVal, SwapF.apply, hne]
+
 /-- what a parked waiter can rely on -/
 def parkedOK (m val : Nat) (bc : Bcast) (k : WKind) (ch : Nat) : Prop :=
   ch < bc.next ∧ (bc.closed ch = false → k.eval m val = .no)
